@@ -568,6 +568,68 @@ end Inv
 
 end Gnat
 
+/-! ## the result vector of `nearestK` / `nearestR` is an in/out parameter
+
+The API is `void nearestK(const _T &data, std::size_t k, std::vector<_T> &nbh)`: callers (every planner)
+reuse one vector for all their queries.  The functions above *return* the answer; the functions below
+take the caller's vector and mirror what the code does to it (clear / assign, then fill), so that
+"the result does not depend on what the vector held before" is a statement about the code as written
+(`query_result_independent_of_previous_contents`).  `nearest` returns its result by value. -/
+
+section InOut
+variable {β : Type}
+
+/-- `std::vector::clear()`. -/
+def vecClear (_ : List β) : List β := []
+
+/-- `nbh = data_` (copy assignment). -/
+def vecAssign (src : List β) (_ : List β) : List β := src
+
+/-- `postprocessNearest`: `nbh.resize(n)` for `n` answers (old entries kept up to `n`, `none` = a
+value-initialised new slot), then the loop assigns **every** slot `*it = …`. -/
+def vecResizeAndOverwrite (ans : List β) (nbh : List β) : List β :=
+  let resized : List (Option β) := (nbh.take ans.length).map some ++ List.replicate (ans.length - nbh.length) none
+  (resized.zip ans).map (fun p => p.2)
+
+variable [BEq α] [Add D] [Sub D] [LE D] [LT D] [DecidableLE D] [DecidableLT D]
+
+/-- `NearestNeighborsGNAT::nearestK(data, k, nbh)` / `…NoThreadSafety::nearestK` as coded:
+`nbh.clear(); if (k == 0) return; if (size_) { search; postprocessNearest(nbh); }`. -/
+def Gnat.nearestKInto (dist : α → α → D) (eps : D) (ord : Nat → Nat → List Nat) (g : Gnat α D) (q : α) (k : Nat)
+    (nbh : List α) : List α :=
+  let nbh := vecClear nbh
+  if k = 0 then nbh
+  else if g.size = 0 then nbh
+  else
+    match g.tree with
+    | none => nbh
+    | some t =>
+      vecResizeAndOverwrite
+        ((postprocess (nearestKInternal dist g.removed q k eps ord g.offset t).nbh).map (fun x => x.2.val)) nbh
+
+/-- `nearestR(data, radius, nbh)` as coded: `nbh.clear(); if (size_) { search; postprocessNearest(nbh); }`. -/
+def Gnat.nearestRInto (dist : α → α → D) (ord : Nat → Nat → List Nat) (g : Gnat α D) (q : α) (r : D)
+    (nbh : List α) : List α :=
+  let nbh := vecClear nbh
+  if g.size = 0 then nbh
+  else
+    match g.tree with
+    | none => nbh
+    | some t =>
+      vecResizeAndOverwrite
+        ((postprocess (nearestRInternal dist g.removed q r ord g.offset t).nbh).map (fun x => x.2.val)) nbh
+
+/-- `NearestNeighborsLinear::nearestK` (and SqrtApprox, which inherits it): `nbh = data_;` then
+(partial) sort and `resize(k)`. -/
+def linNearestKInto (dist : α → α → D) (q : α) (k : Nat) (data : List α) (nbh : List α) : List α :=
+  bruteK (fun x => dist x q) k (vecAssign data nbh)
+
+/-- `NearestNeighborsLinear::nearestR`: `nbh.clear();` push the elements within the radius; sort. -/
+def linNearestRInto (dist : α → α → D) (q : α) (r : D) (data : List α) (nbh : List α) : List α :=
+  (vecClear nbh ++ data.filter (fun x => decide (dist x q ≤ r))).mergeSort (leBy (fun x => dist x q))
+
+end InOut
+
 /-! ## which structure a planner gets: `tools::SelfConfig::getDefaultNearestNeighbors` -/
 
 section Default
